@@ -642,6 +642,8 @@ func faultCases() []faultCase {
 	add("illegal option value", repl(2, "    LittleEndian = 5;"), 2)
 	add("illegal option value (string)", repl(2, "    LittleEndian = \"yes\";"), 2)
 	add("illegal prefix type", repl(3, "    StringPrefixLenType = i8;"), 3)
+	add("illegal prefix type (wrong case)", repl(3, "    StringPrefixLenType = \"U8\";"), 3)
+	add("illegal option value (wrong case)", repl(2, "    LittleEndian = \"TRUE\";"), 2)
 	add("length-of outside the root packet", ins(26, "    u16 l @lengthOf(s),"), 27)
 	add("length-of outside the root packet (prefixed)", ins(26, "    @lengthOf(s) u16 l,"), 27)
 	add("length-of declared twice", ins(10, "    u16 Len2 @lengthOf(Body),"), 11)
